@@ -39,6 +39,13 @@
 (* sees that opened `local` before the call.  The input record `ain` (entry *)
 (* point, what is there, what is written, which step fails) is chosen in   *)
 (* Init; one action per step of the code, in the code's order.             *)
+(* ApBuffered = FALSE is the code at hand, step by step (closed model, the *)
+(* emitted cases).  ApBuffered = TRUE (trace validation) widens it to what *)
+(* the STATEMENT allows: which of the written data has reached the disk is *)
+(* open; the download may do without a temporary file; the writer may use  *)
+(* another temporary name and leave a stale '.new' alone or remove it at   *)
+(* any step; a failing iterable / a directory in the way may be noticed    *)
+(* before anything is created.  All invariants hold in both modes.         *)
 (* ApMode switches in the defects used as negative controls:               *)
 (*   inPlace      write straight into `local`              -> OldOrNew     *)
 (*   renameEarly  rename before the data is flushed        -> OldOrNew     *)
